@@ -64,8 +64,30 @@ class IdealFn:
                     vm.add_pc(z3.Or([neq8(x, y) for x, y in zip(other.a, out.a)]))
             vm.universe.append(out)
         tab.append((args, out))
+        vm.ideal_log.append((self.name, out))
         return out
 
     def model(self):
         """(vm, args, kwargs) adapter for VM.models."""
         return lambda vm, a, k: self(*a)
+
+
+class NativeIdeal:
+    """Native twin of an IdealFn for replays whose path *depends on hash values* (a checksum that matches, a proof of
+    work below its target): the k-th new argument gets the output bytes the solver's model chose for the k-th ideal
+    call; arguments beyond the recorded ones (or when nothing was recorded) go to the real function."""
+
+    def __init__(self, nvm, name, real):
+        self.nvm, self.name, self.real = nvm, name, real
+        self.seen = {}
+        self.k = 0
+
+    def __call__(self, *args):
+        key = tuple(bytes(a) if isinstance(a, (bytes, bytearray, memoryview)) else a for a in args)
+        if key in self.seen:
+            return self.seen[key]
+        rec = self.nvm.named.get(f'ideal|{self.name}|{self.k}')
+        self.k += 1
+        out = bytes.fromhex(rec) if rec is not None else self.real(*args)
+        self.seen[key] = out
+        return out
